@@ -37,6 +37,7 @@ type Ctx struct {
 	rid     string // current rule id prefix, e.g. "C07-R2"
 	sites   int    // call sites / constructs inspected
 	goT     map[*ssa.Function]bool
+	nnMemo  map[*ssa.Function]int
 }
 
 type lostAnchor struct{ what string }
